@@ -197,6 +197,31 @@ def run(ck, facts, tier):
         else:
             ck.violation(R, "disjoint:only-on-unique-refutation", dj.where(), "two impls are disjoint only if `not { exists.. overlap }` has a Unique solution")
 
+    R = "C19.EVERY-SPECIALIZATION-AN-EDGE"
+    ck.rule(R, "K3: the closure build_specialization_forest hands to visit_specializations_of_trait records EVERY specialization it is told "
+               "about as an edge less_special -> more_special (Graph::update_edge / add_edge on every path to its return, never "
+               "remove_edge): priorities are longest-chain depths over that graph, and an edge dropped as `implied by transitivity` is only "
+               "implied if the other edges are already there - the pairs arrive in declaration order, not in chain order")
+    bf = need_body(ck, facts, R, CS + "build_specialization_forest")
+    if bf:
+        from kit import all_returns_pass as _arp
+        cls = [c for c in facts.closures_of(bf) if c.d.get("mir") and (c.cfg.call_blocks(("Graph::update_edge", "Graph::add_edge")) or
+                                                                       any("ImplId" in str(p_) for p_ in (c.d.get("thir_params") or [])))]
+        cls = [c for c in cls if "Closure#0" in c.key and c.key.count("{") == 1] or cls[:1]
+        if not cls:
+            ck.violation(R, "missing-anchor:record-closure", bf.where(), "the closure that records specializations was not found")
+        for c in cls[:1]:
+            edges = c.cfg.call_blocks(("Graph::update_edge", "Graph::add_edge"))
+            rem = c.cfg.call_blocks(("Graph::remove_edge", "Graph::retain_edges", "Graph::clear_edges"))
+            if not edges:
+                ck.violation(R, "build_specialization_forest:edge-for-every-pair", bf.where(), "the recording closure adds no edge")
+            else:
+                _arp(ck, R, c, [0], edges, "build_specialization_forest:edge-for-every-pair")
+            if rem or bf.cfg.call_blocks(("Graph::remove_edge", "Graph::retain_edges", "Graph::clear_edges")):
+                ck.violation(R, "build_specialization_forest:no-edge-removed", bf.where(), "recorded specialization edges are removed again")
+            else:
+                ck.ok(R, "build_specialization_forest:no-edge-removed")
+
     R = "C19.VERDICT-BY-SOLVER"
     ck.rule(R, "K3 (must-pass-through): CoherenceSolver::disjoint and ::specializes reach their return only through the solver call "
                "(Solver::solve / has_unique_solution) on the goal they built - no shortcut decides overlap or specialization from the "
